@@ -79,7 +79,7 @@ NoResp == [status |-> 0, close |-> FALSE, gen |-> FALSE, k |-> 0, blen |-> 0]
 NoConn == [st |-> "new", b |-> 0, script |-> << >>, avail |-> 0, sent |-> 0, pshut |-> FALSE, prst |-> FALSE, fd |-> "none",
            rb |-> [size |-> 0, used |-> 0, off |-> 0, tr |-> 0], ri |-> 1, hasReq |-> FALSE, dsize |-> 0, cclose |-> FALSE,
            dangling |-> FALSE, bufstale |-> FALSE, every |-> FALSE, half |-> FALSE, io |-> "-", tmr |-> FALSE, tev |-> "R", sep |-> FALSE,
-           resp |-> NoResp, sbuf |-> 0, left |-> 0, cur |-> << >>, wait |-> "none",
+           resp |-> NoResp, sbuf |-> 0, left |-> 0, leftalt |-> 0, cur |-> << >>, wait |-> "none",
            ndst |-> 0, deliv |-> << >>, resps |-> << >>, refused |-> FALSE]
 NoBind == [st |-> "none", lfd |-> "none", reg |-> FALSE]
 IdleRun == [pc |-> "idle", c |-> 0, b |-> 0, mode |-> "pool", ctx |-> "rdcb", after |-> "idle", ab |-> 0, api |-> "",
@@ -320,7 +320,10 @@ SendMsg(s, want, ret, err) ==
   IF r < 0 THEN SndResult(IF err = "EAGAIN" THEN Viol(s, "response-dropped-on-full-socket-buffer") ELSE s, c, TRUE)
   ELSE IF r = want THEN SndResult([s EXCEPT !.c[c].resps = @ \o cr.cur, !.c[c].cur = << >>], c, FALSE)
   ELSE \* part of the response left: tp_task_start(TP_EV_WRITE, snd_timeout, http_srv_snd_done_cb); EINPROGRESS
-       Ret(Restart([s EXCEPT !.c[c].left = want - r, !.c[c].tev = "W"], c), "NONE")
+       \* (a generated page printed behind stale send-buffer bytes: when the headers went out completely the write task
+       \*  is given everything from the offset to `used`, i.e. the stale bytes more - s.c[c].leftalt)
+       LET stale == IF ~Has(s, "errpage") /\ IsErrPage(cr.resp) /\ cr.sep THEN cr.sbuf ELSE 0 IN
+       Ret(Restart([s EXCEPT !.c[c].left = want - r, !.c[c].leftalt = want - r + stale, !.c[c].tev = "W"], c), "NONE")
 
 (* send() of the write handler answered *)
 SendWant(s) == s.c[s.run.c].left
@@ -329,7 +332,7 @@ Send(s, ret, err) ==
   IF ret > 0
   THEN IF cr.left - ret <= 0
        THEN SndDone([s EXCEPT !.c[c].left = 0, !.c[c].resps = @ \o cr.cur, !.c[c].cur = << >>], c, IF s.run.perr THEN "EIO" ELSE "0", s.run.eofs)
-       ELSE [s EXCEPT !.c[c].left = @ - ret]
+       ELSE [s EXCEPT !.c[c].left = @ - ret, !.c[c].leftalt = cr.left - ret]
   ELSE IF ret < 0 /\ err \in {"EAGAIN", "EINTR"} THEN Ret(s, "CONTINUE")
   ELSE SndDone(s, c, IF ret = 0 THEN "0" ELSE err, s.run.eofs)
 
